@@ -308,7 +308,23 @@ def apply(pool, op):
             return [a, b], [comp, comp.contains(C[1]), comp.to_mask().data]
         if name == 'artist':
             r = P[op[1] % len(P)]
-            return [r], r.as_artist(origin=(1.0 * (op[2] % 3), 0.5))
+            # (with or without overriding keywords: what one call was given
+            # must not show in the artist the next call makes)
+            kw = [{}, {}, {'color': 'magenta'}, {'alpha': 0.5, 'zorder': 9},
+                  {'label': 'legend entry'}, {}][op[3] % 6]
+            o = (1.0 * (op[2] % 3), 0.5)
+            a0 = r.as_artist(origin=o)
+            if kw:
+                r.as_artist(origin=o, **kw)
+                a2 = r.as_artist(origin=o)
+                from vf.fingerprint import fp as _fp
+                if _fp(a2) != _fp(a0):
+                    from vf.runner import Mismatch
+                    raise Mismatch(
+                        'C13.history | artist | drawing the region again '
+                        'after a call with overriding keywords gives a '
+                        'different artist', f'keywords {kw}; region {r!r}')
+            return [r], a0
         if name == 'serialize':
             lst = L[op[1] % len(L)]
             fmt = ['ds9', 'crtf', 'fits'][op[2] % 3]
